@@ -241,6 +241,11 @@ func ecLinear(cfg Config, file string, runs, steps int) (int, error) {
 				}
 				return op("set", st-1, st, d), true
 			case st == nb+1:
+				// with background cleanup the jump goes past deadline + interval at once: in between, every
+				// expired entry may or may not have been purged yet (2^32 possibilities for the validator)
+				if intv > 0 {
+					return op("tick", 9), true
+				}
 				return op("tick", 3), true
 			case st == nb+2:
 				return op("delexp"), true
